@@ -15,7 +15,8 @@ def run(chk):
                 "accumulator; further entry points: the verified object verified again under an UNRELATED key (memo of the signature check), FlattenEventLists of the events cut in "
                 "two followed by EventList.Verify. RevAPI.tla: the life cycle of the message objects (updates built / decoded / decoded-and-verified, with and without events; event lists "
                 "decoded into fresh or used variables, empty or not, JSON and CBOR; witnesses in memory or read from storage; lists flattened with empty or product-less parts; one "
-                "flattened list prepended to two updates) - every call returns with the owed outcome class, a failing call changes nothing, bystander objects stay intact. "
+                "flattened list prepended to two updates; a verified SignedAccumulator object receiving other signed bytes, genuine or garbage, by decoding; a genuine list decoded into a "
+                "variable whose previous content failed verification; stored witnesses lacking u or e) - every call returns with the owed outcome class, a failing call changes nothing, bystander objects stay intact. "
                 "Non-trivial = distinct mutated message / scenario.")
     chk.assumptions = ["hash and signature are idealised in the model (injective / unforgeable); the harness uses the real SHA-256, multihash and ECDSA",
                        "toy 64-bit moduli", "SignedAccumulator.Accumulator memo is clear on received messages (it is not serialised)"]
@@ -61,7 +62,7 @@ def run(chk):
     g = vplib.tlc_mc("RevAPIGen", "RevAPI.cfg", workers=1, timeout=300)
     scen = sorted(set(g.tagged_raw_json("A")))
     chk.add_tlc(g, "RevAPIGen", "RevAPI.cfg", "Total, FailLeavesUnchanged; %d (object state, call) scenarios" % len(scen))
-    if len(scen) < 20:
+    if len(scen) < 30:
         raise vplib.Machinery("only %d API scenarios" % len(scen))
     ap = os.path.join(vplib.sub("c10"), "api.ndjson")
     open(ap, "w").write("\n".join(scen) + "\n")
